@@ -1688,6 +1688,10 @@ func (c *control) dirIter(colon, at bool, params []any) {
 	}
 	n := math.MaxInt
 	n = c.intParam(0, params, n, true) // an iteration limit, not a size
+	// Without a limit (or with one beyond what an output string can hold) a
+	// pass that consumes no argument while arguments remain would be
+	// repeated for ever. The flag is taken before the loops count n down.
+	unbounded := maxDirParam < n
 	switch {
 	case colon && at:
 		// The iteration consumes format arguments that must be lists.
@@ -1741,7 +1745,7 @@ func (c *control) dirIter(colon, at bool, params []any) {
 			c.out = append(c.out, c2.out...)
 			c2.out = c2.out[:0]
 			atLeastOnce = false
-			if c2.argPos <= before && c2.argPos < len(c2.args) && !c2.stop && n == math.MaxInt {
+			if unbounded && c2.argPos <= before && c2.argPos < len(c2.args) && !c2.stop {
 				// No limit and no argument consumed, it would never end.
 				slip.ErrorPanic(c.scope, 0,
 					"iteration directive consumes no arguments and has no limit at %d of %q", start, c.str)
@@ -1765,7 +1769,7 @@ func (c *control) dirIter(colon, at bool, params []any) {
 			c.out = append(c.out, c2.out...)
 			c2.out = c2.out[:0]
 			atLeastOnce = false
-			if c2.argPos <= before && c2.argPos < len(c2.args) && !c2.stop && n == math.MaxInt {
+			if unbounded && c2.argPos <= before && c2.argPos < len(c2.args) && !c2.stop {
 				// No limit and no argument consumed, it would never end.
 				slip.ErrorPanic(c.scope, 0,
 					"iteration directive consumes no arguments and has no limit at %d of %q", start, c.str)
